@@ -177,6 +177,40 @@ def main():
             run_one(kind, n, mc, rng.randrange(10 ** 9), shape=rng.choice(["task", "pass_task", "wait_task", "caught", "inputpath"]), sched="random")
         else:
             run_one(kind, n, mc, perm, shape=rng.choice(["task", "pass_task", "wait_task", "caught", "inputpath"]))
+    # nested joins: a Map (or a Parallel holding a Map) inside the iterations of a Map, every combination of the two MaxConcurrency values:
+    # each inner join must complete its own iteration of the outer join, positions kept at both levels
+    nested_runs = 0
+    inner_it = {"StartAt": "P", "States": {"P": {"Type": "Pass", "Parameters": {"v.$": "$"}, "End": True}}}
+    nested_input = [[1, 2, 3], [4, 5], [], [6]]
+    for omc in ([None, 1, 2, 3] if not thorough else [None, 0, 1, 2, 3, 5]):
+        for imc in (None, 1, 2):
+            for shape in ("direct", "after_pass", "in_parallel"):
+                inner = {"Type": "Map", "Iterator": inner_it, "End": True}
+                if imc is not None:
+                    inner["MaxConcurrency"] = imc
+                if shape == "direct":
+                    it = {"StartAt": "Inner", "States": {"Inner": inner}}
+                elif shape == "after_pass":
+                    it = {"StartAt": "Q", "States": {"Q": {"Type": "Pass", "Next": "Inner"}, "Inner": inner}}
+                else:
+                    it = {"StartAt": "Par", "States": {"Par": {"Type": "Parallel", "Branches": [{"StartAt": "Inner", "States": {"Inner": inner}}], "End": True}}}
+                outer = {"Type": "Map", "Iterator": it, "Next": "Done"}
+                if omc is not None:
+                    outer["MaxConcurrency"] = omc
+                definition = {"StartAt": "M", "States": {"M": outer, "Done": {"Type": "Pass", "End": True}}}
+                sched = rng.randrange(10 ** 9)
+                info = eg.run_many(definition, [nested_input], worker, tmpd, chooser=eg.random_chooser(random.Random(sched)) if nested_runs % 2 else None)
+                nested_runs += 1
+                rec = info.samples[-1][info.arns[0]]["record"] if info.samples else None
+                want = [[{"v": x} for x in l] for l in nested_input]
+                if shape == "in_parallel":
+                    want = [[e] for e in want]
+                got = json.loads(rec["output"]) if rec and rec.get("status") == "SUCCEEDED" else None
+                info.world = None
+                if info.status != "quiescent" or got != want or info.leftovers["i1"]["branch_metadata"]:
+                    d = {"kind": "nested", "outer_MaxConcurrency": omc, "inner_MaxConcurrency": imc, "shape": shape, "definition": definition, "input": nested_input,
+                         "schedule": "random(seed=%d)" % sched if (nested_runs - 1) % 2 else "canonical", "status": info.status, "record_status": (rec or {}).get("status"), "output": got, "expected": want}
+                    ck.violation("a Map nested in the iterations of a Map did not join to the nested array of item outputs: %s" % json.dumps({k: d[k] for k in d if k != "definition"})[:900], {"case": d})
     shutil.rmtree(tmpd, ignore_errors=True)
 
     for d in not_ended[:3]:
@@ -199,6 +233,7 @@ def main():
                         ck.replay_extra = d
                         continue
                 ck.violation("%s: %s" % (what[f], json.dumps({k: d[k] for k in ("kind", "n", "MaxConcurrency", "shape", "finish_priority", "finishes", "launches", "output", "max_in_flight")})), {"case": d, "monitor": f})
+    ck.add_group("nested_joins", nested_runs, nested_runs, [])
     ck.add_group("fanout", len(cases), sum(1 for d in descs if d["n"] >= 2), descs[5:7],
                  map=sum(1 for d in descs if d["kind"] == "map"), parallel=sum(1 for d in descs if d["kind"] == "parallel"),
                  with_max_concurrency=sum(1 for d in descs if d["MaxConcurrency"]), exhaustive_up_to=max_exh,
